@@ -76,6 +76,10 @@ def layout(ctx, thorough):
     need(info["counters"].get("corrupted_cases", 0) > 500, "no corrupted-name cases were replayed")
     os.remove(dump)
     if thorough:
+        # the 5-value alphabet configs carry every invariant except Injective (625 embeddings per
+        # state); injectivity is checked directly over the 3-value alphabet, and over the 5-value
+        # one it follows from RoundTrip (Extract is a left inverse)
+        ctx.tlc("Dns64", "MC_LayoutQuick.tla", "MC_LayoutQuick.cfg", workers=WORKERS, timeout=600, heap="6g")
         # the full 5-value alphabet for prefix (period 3) and address: model proof only
         ctx.tlc("Dns64", "MC_LayoutFull.tla", "MC_LayoutFull.cfg", workers=8, timeout=2400, heap="12g")
 
